@@ -486,9 +486,11 @@ func isNilVal(v Val) bool {
 	return ok && k.V == nil
 }
 
-func c14Tables(c *Ctx, pr *PropertyRun) {
+func c14Tables(c *Ctx, pr *PropertyRun) { c14TablesFor(c, pr, "C14") }
+
+func c14TablesFor(c *Ctx, pr *PropertyRun, prop string) {
 	p := c.P
-	r := NewRule("C14", "C14.status-tables", "decision tables of Status.Err, Response.Err, Response.Path, internal.(*Client).Do, DoMultiStatus and carddav SyncCollection over status classes equal the statement (E2)")
+	r := NewRule(prop, prop+".status-tables", "decision tables of Status.Err, Response.Err, Response.Path, internal.(*Client).Do, DoMultiStatus and carddav SyncCollection over status classes equal the statement (E2)")
 	r.Exhaustive = true
 	r.Bounds = fmt.Sprintf("status codes %v; sync-collection responses <= 2", c14Codes)
 	pr.Rules = append(pr.Rules, r)
